@@ -336,15 +336,86 @@ Qed.
 
 (* ------------------------------------------------------------------ 3. the loop of nextPacket *)
 
+Lemma packable_not_cont p : packable p = true -> is_cont p = false.
+Proof.
+  unfold packable, is_cont. intro H. repeat (apply andb_prop in H; destruct H as [H ?]).
+  destruct (f_multi (p_fl p)); [discriminate|]. destruct (f_mdev (p_fl p)); [discriminate|reflexivity].
+Qed.
+
 Lemma write_unpack_packable o src :
   packable src = true ->
   write_unpack o src =
   mkC (c_dev o) (set_multi (or_chan (set_len (c_fl o) (f_len (c_fl o) + 1)) (f_chan (p_fl src))))
       (c_tags o ++ p_tags src) (c_in o ++ [src]).
+Proof. intro H. unfold write_unpack. rewrite (packable_not_cont _ H). reflexivity. Qed.
+
+(* a queued item: an ordinary packet, or a container that counts the packets it holds *)
+Definition item_packable (p : packet) : Prop :=
+  packable p = true \/ (is_cont p = true /\ 1 <= f_len (p_fl p) /\ f_len (p_fl p) = len (p_in p)).
+(* the tags writeUnpack takes over from an item (none from a spliced container) *)
+Definition wtags (p : packet) : list Z := if is_cont p then [] else p_tags p.
+(* the number of packets a list of items holds *)
+Definition cnt (l : list packet) : Z := len (flat_map expand l).
+
+Lemma is_cont_norm i p : is_cont (norm i p) = is_cont p.
+Proof. unfold is_cont. rewrite p_fl_norm. reflexivity. Qed.
+Lemma p_in_norm i p : p_in (norm i p) = p_in p.
+Proof. unfold norm. destruct (p_dev p =? 0); reflexivity. Qed.
+Lemma expand_norm i p : expand (norm i p) = if is_cont p then p_in p else [norm i p].
+Proof. unfold expand. rewrite is_cont_norm, p_in_norm. reflexivity. Qed.
+Lemma expand_plain p : is_cont p = false -> expand p = [p].
+Proof. intro H. unfold expand. rewrite H. reflexivity. Qed.
+Lemma len_expand_norm i p : len (expand (norm i p)) = len (expand p).
+Proof. rewrite expand_norm. unfold expand. destruct (is_cont p); reflexivity. Qed.
+Lemma wtags_norm i p : wtags (norm i p) = wtags p.
+Proof. unfold wtags. rewrite is_cont_norm, p_tags_norm. reflexivity. Qed.
+Lemma item_packable_norm i p : item_packable p -> item_packable (norm i p).
 Proof.
-  intro H. unfold write_unpack. unfold packable in H.
-  repeat (apply andb_prop in H; destruct H as [H ?]).
-  destruct (f_multi (p_fl src)); [discriminate|]. destruct (f_mdev (p_fl src)); [discriminate|]. reflexivity.
+  unfold item_packable. rewrite packable_norm, is_cont_norm, p_fl_norm, p_in_norm. exact (fun h => h).
+Qed.
+Lemma cnt_cons p l : cnt (p :: l) = len (expand p) + cnt l.
+Proof. unfold cnt. cbn [flat_map]. apply len_app. Qed.
+Lemma cnt_nonneg l : 0 <= cnt l.
+Proof. apply len_nonneg. Qed.
+Lemma cnt_firstn_le f l : cnt (firstn f l) <= cnt l.
+Proof.
+  revert f. induction l as [|p l IH]; intro f; destruct f; cbn [firstn]; try (unfold cnt; cbn; lia).
+  - rewrite cnt_cons. pose proof (cnt_nonneg l). pose proof (len_nonneg (expand p)). unfold cnt at 1. cbn. lia.
+  - rewrite !cnt_cons. specialize (IH f). lia.
+Qed.
+Lemma cnt_plain_firstn f l : Forall (fun p => is_cont p = false) l -> cnt (firstn f l) <= Z.of_nat f.
+Proof.
+  revert f. induction l as [|p l IH]; intros f H; destruct f; cbn [firstn]; try (unfold cnt; cbn; lia).
+  inversion H; subst. rewrite cnt_cons, expand_plain by assumption. specialize (IH f H3).
+  change (len [p]) with 1. lia.
+Qed.
+
+Lemma set_flags_mdev f n b :
+  f_mdev (set_multi (or_chan (set_len f n) b)) = f_mdev f.
+Proof. reflexivity. Qed.
+Lemma set_flags_len f n b :
+  f_len (set_multi (or_chan (set_len f n) b)) = u16 n.
+Proof. reflexivity. Qed.
+
+(* writeUnpack appends what the item holds: one packet, or the packets of a spliced container *)
+Lemma write_unpack_gen o src :
+  item_packable src -> f_len (c_fl o) = len (c_in o) -> len (c_in o) + len (expand src) <= 65535 ->
+  c_dev (write_unpack o src) = c_dev o /\
+  c_in (write_unpack o src) = c_in o ++ expand src /\
+  c_tags (write_unpack o src) = c_tags o ++ wtags src /\
+  f_mdev (c_fl (write_unpack o src)) = f_mdev (c_fl o) /\
+  f_len (c_fl (write_unpack o src)) = len (c_in (write_unpack o src)).
+Proof.
+  intros [Hp|[Hc [H1 H2]]] Hl Hb; pose proof (len_nonneg (c_in o)) as Hn.
+  - rewrite (write_unpack_packable o src Hp). pose proof (packable_not_cont _ Hp) as Hc.
+    unfold wtags. rewrite (expand_plain _ Hc) in *. rewrite Hc. cbn [c_dev c_in c_tags c_fl].
+    rewrite set_flags_mdev, set_flags_len, Hl, len_app. change (len [src]) with 1 in *.
+    repeat split. apply u16_small. lia.
+  - unfold write_unpack, wtags, expand in *. rewrite Hc in *.
+    replace (f_len (p_fl src) =? 0) with false by lia.
+    replace (FRAG_MAX <? f_len (p_fl src) + f_len (c_fl o)) with false by (unfold FRAG_MAX; lia).
+    cbn [c_dev c_in c_tags c_fl set_len f_mdev f_len]. rewrite app_nil_r, len_app, Hl, H2.
+    repeat split. apply u16_small. pose proof (len_nonneg (p_in src)). lia.
 Qed.
 
 Lemma nonnop_cons_nop p l : is_nop p = true -> nonnop (p :: l) = nonnop l.
@@ -356,115 +427,114 @@ Proof. intro H. unfold nonnop in *. cbn [filter]. destruct (negb (is_nop p)); [f
 Lemma nonnop_app a b : nonnop (a ++ b) = nonnop a ++ nonnop b.
 Proof. apply filter_app. Qed.
 
-(* structure: what the loop consumes (used), what it packs (kept), what it leaves *)
+(* an own item contributes packets of our own device only *)
+Definition own_items (i : Z) (l : list packet) : Prop :=
+  Forall (fun p => is_own i p = true -> Forall (fun v => p_dev v = i) (expand (norm i p))) l.
+
+(* structure: what the loop consumes (used), what it packs (kept), what it leaves; the count and
+   the multi-device bit of the container *)
 Lemma np_loop_struct F i : forall fuel l s m o o' k rest,
   np_loop F i fuel l s m o = (o', k, rest) ->
-  Forall (fun p => packable p = true) l ->
+  Forall item_packable l -> own_items i l ->
+  f_mdev (c_fl o) = m -> (m = false -> Forall (fun v => p_dev v = i) (c_in o)) ->
+  f_len (c_fl o) = len (c_in o) -> len (c_in o) + cnt (firstn fuel l) <= 65535 ->
   exists used kept,
     l = used ++ optl k ++ rest /\
-    c_in o' = c_in o ++ map (norm i) kept /\
-    c_tags o' = c_tags o ++ flat_map p_tags kept /\
+    c_in o' = c_in o ++ flat_map expand (map (norm i) kept) /\
+    c_tags o' = c_tags o ++ flat_map wtags kept /\
     c_dev o' = c_dev o /\
     nonnop kept = nonnop used /\
     incl kept used /\
     (length kept <= fuel)%nat /\
-    ((0 <? s) = false -> fuel <> O -> l <> [] -> used <> []).
+    ((0 <? s) = false -> fuel <> O -> l <> [] -> used <> []) /\
+    f_len (c_fl o') = len (c_in o') /\
+    (f_mdev (c_fl o') = false -> Forall (fun v => p_dev v = i) (c_in o')) /\
+    len (c_in o') <= len (c_in o) + cnt (firstn fuel l).
 Proof.
-  induction fuel as [|f IH]; intros l s m o o' k rest H Hp.
+  induction fuel as [|f IH]; intros l s m o o' k rest H Hp Hoi Hm Hown Hl Hb.
   - cbn [np_loop] in H. inversion H; subst. exists [], []. cbn [optl app map flat_map].
     repeat rewrite app_nil_r. repeat split; try reflexivity; try (intros x Hx; exact Hx); try lia;
-      try (intros; congruence).
+      try (intros; congruence); try assumption; try (unfold cnt; cbn; lia).
   - destruct l as [|n r].
     + cbn [np_loop] in H. inversion H; subst. exists [], []. cbn [optl app map flat_map].
       repeat rewrite app_nil_r. repeat split; try reflexivity; try (intros x Hx; exact Hx); try (cbn; lia);
-        try (intros; congruence).
-    + cbn [np_loop] in H. inversion Hp as [|? ? Hn Hr]; subst.
-      destruct (is_nop n && (((0 <? s) && negb m) || is_own i n)) eqn:E1.
+        try (intros; congruence); try assumption; try (unfold cnt; cbn; lia).
+    + cbn [np_loop] in H. inversion Hp as [|? ? Hn Hr]; subst. inversion Hoi as [|? ? Hon Hor]; subst.
+      cbn [firstn] in Hb. rewrite cnt_cons in Hb.
+      pose proof (cnt_nonneg (firstn f r)) as Hc0. pose proof (len_nonneg (expand n)) as Hc1.
+      destruct (is_nop n && (((0 <? s) && negb (f_mdev (c_fl o))) || is_own i n)) eqn:E1.
       * apply andb_prop in E1. destruct E1 as [En _].
-        destruct (IH _ _ _ _ _ _ _ H Hr) as [used [kept [H1 [H2 [H3 [H4 [H5 [H6 [H7 _]]]]]]]]].
+        destruct (IH _ _ _ _ _ _ _ H Hr Hor eq_refl Hown Hl ltac:(lia))
+          as [used [kept [H1 [H2 [H3 [H4 [H5 [H6 [H7 [_ [H9 [H10 H11]]]]]]]]]]]].
         exists (n :: used), kept. repeat split; try assumption.
         -- rewrite H1. reflexivity.
         -- rewrite nonnop_cons_nop by assumption. exact H5.
         -- intros x Hx. right. apply H6. exact Hx.
         -- lia.
         -- intros _ _ _ Hc. discriminate.
+        -- cbn [firstn]. rewrite cnt_cons. lia.
       * destruct ((0 <? s) && (F <? s + psize n)) eqn:E2.
         -- inversion H; subst. exists [], []. cbn [optl app map flat_map].
            repeat rewrite app_nil_r. repeat split; try reflexivity; try (intros x Hx; exact Hx); try (cbn; lia);
-             try (intros Hs; rewrite Hs in E2; discriminate).
-        -- set (md := negb (is_own i n) && negb m) in *.
+             try (intros Hs; rewrite Hs in E2; discriminate); try assumption;
+             try (cbn [firstn]; rewrite cnt_cons; lia).
+        -- set (m := f_mdev (c_fl o)) in *.
+           set (md := negb (is_own i n) && negb m) in *.
            set (o1 := if md then mkC (c_dev o) (set_mdev (c_fl o)) (c_tags o) (c_in o) else o) in *.
-           assert (Ho1 : c_in o1 = c_in o /\ c_tags o1 = c_tags o /\ c_dev o1 = c_dev o)
-             by (subst o1; destruct md; repeat split; reflexivity).
-           destruct Ho1 as [Ha [Hb Hc]].
-           assert (Hpn : packable (norm i n) = true) by (rewrite packable_norm; exact Hn).
-           rewrite (write_unpack_packable o1 (norm i n) Hpn) in H.
-           destruct (IH _ _ _ _ _ _ _ H Hr) as [used [kept [H1 [H2 [H3 [H4 [H5 [H6 [H7 _]]]]]]]]].
-           cbn [c_in c_tags c_dev] in H2, H3, H4.
-           exists (n :: used), (n :: kept). repeat split.
+           assert (Ho1 : c_in o1 = c_in o /\ c_tags o1 = c_tags o /\ c_dev o1 = c_dev o /\
+                         f_len (c_fl o1) = f_len (c_fl o) /\ f_mdev (c_fl o1) = m || md).
+           { subst o1. destruct md eqn:Emd; cbn [c_in c_tags c_dev c_fl set_mdev f_len f_mdev];
+               repeat split; try reflexivity; [rewrite orb_true_r|rewrite orb_false_r]; reflexivity. }
+           destruct Ho1 as [Ha [Hb1 [Hc [Hd He]]]].
+           assert (Hpn : item_packable (norm i n)) by (apply item_packable_norm; exact Hn).
+           assert (Hl1 : f_len (c_fl o1) = len (c_in o1)) by (rewrite Hd, Ha; exact Hl).
+           assert (Hb2 : len (c_in o1) + len (expand (norm i n)) <= 65535) by (rewrite Ha, len_expand_norm; lia).
+           destruct (write_unpack_gen o1 (norm i n) Hpn Hl1 Hb2) as [W1 [W2 [W3 [W4 W5]]]].
+           set (o2 := write_unpack o1 (norm i n)) in *.
+           assert (A1 : f_mdev (c_fl o2) = m || md) by (rewrite W4; exact He).
+           assert (A3 : m || md = false -> Forall (fun v => p_dev v = i) (c_in o2)).
+           { intro Hf. apply orb_false_elim in Hf. destruct Hf as [Hf1 Hf2]. rewrite W2, Ha.
+             apply Forall_app. split; [apply Hown; exact Hf1|]. apply Hon.
+             subst md. rewrite Hf1 in Hf2. cbn [negb] in Hf2. rewrite andb_true_r in Hf2.
+             destruct (is_own i n); [reflexivity|discriminate]. }
+           assert (A4 : len (c_in o2) + cnt (firstn f r) <= 65535).
+           { rewrite W2, len_app, Ha, len_expand_norm. lia. }
+           destruct (IH _ _ _ _ _ _ _ H Hr Hor A1 A3 W5 A4)
+             as [used [kept [H1 [H2 [H3 [H4 [H5 [H6 [H7 [_ [H9 [H10 H11]]]]]]]]]]]].
+           exists (n :: used), (n :: kept). repeat split; try assumption.
            ++ rewrite H1. reflexivity.
-           ++ rewrite H2, Ha. cbn [map]. rewrite <- app_assoc. reflexivity.
-           ++ rewrite H3, Hb, p_tags_norm. cbn [flat_map]. rewrite <- app_assoc. reflexivity.
-           ++ rewrite H4. exact Hc.
+           ++ rewrite H2, W2, Ha. cbn [map flat_map]. rewrite <- app_assoc. reflexivity.
+           ++ rewrite H3, W3, Hb1, wtags_norm. cbn [flat_map]. rewrite <- app_assoc. reflexivity.
+           ++ rewrite H4, W1. exact Hc.
            ++ apply nonnop_cons_eq. exact H5.
            ++ intros x [Hx|Hx]; [left; exact Hx|right; apply H6; exact Hx].
            ++ cbn [length]. lia.
            ++ intros _ _ _ Hc'. discriminate.
+           ++ cbn [firstn]. rewrite cnt_cons. rewrite W2, len_app, Ha, len_expand_norm in H11. lia.
 Qed.
 
-Lemma set_flags_mdev f n b :
-  f_mdev (set_multi (or_chan (set_len f n) b)) = f_mdev f.
-Proof. reflexivity. Qed.
-Lemma set_flags_len f n b :
-  f_len (set_multi (or_chan (set_len f n) b)) = u16 n.
-Proof. reflexivity. Qed.
-
-(* flags of the container: the count, and the multi-device bit *)
-Lemma np_loop_flags F i : forall fuel l s m o o' k rest,
-  np_loop F i fuel l s m o = (o', k, rest) ->
+(* ordinary packets as items *)
+Lemma plain_items i l :
   Forall (fun p => packable p = true) l ->
-  f_mdev (c_fl o) = m ->
-  f_len (c_fl o) = len (c_in o) -> len (c_in o) + Z.of_nat fuel < 65536 ->
-  (m = false -> Forall (fun v => p_dev v = i) (c_in o)) ->
-  f_len (c_fl o') = len (c_in o') /\ len (c_in o') <= len (c_in o) + Z.of_nat fuel /\
-  (f_mdev (c_fl o') = false -> Forall (fun v => p_dev v = i) (c_in o')).
+  Forall item_packable l /\ own_items i l /\ Forall (fun p => is_cont p = false) l.
 Proof.
-  induction fuel as [|f IH]; intros l s m o o' k rest H Hp Hm Hl Hb Hown.
-  - cbn [np_loop] in H. inversion H; subst. repeat split; try assumption; lia.
-  - destruct l as [|n r].
-    + cbn [np_loop] in H. inversion H; subst. repeat split; try assumption; lia.
-    + cbn [np_loop] in H. inversion Hp as [|? ? Hn Hr]; subst.
-      destruct (is_nop n && (((0 <? s) && negb (f_mdev (c_fl o))) || is_own i n)).
-      * destruct (IH _ _ _ _ _ _ _ H Hr eq_refl Hl ltac:(lia) Hown) as [H1 [H2 H3]].
-        repeat split; try assumption; lia.
-      * destruct ((0 <? s) && (F <? s + psize n)).
-        -- inversion H; subst. repeat split; try assumption; lia.
-        -- set (m := f_mdev (c_fl o)) in *.
-           set (md := negb (is_own i n) && negb m) in *.
-           set (o1 := if md then mkC (c_dev o) (set_mdev (c_fl o)) (c_tags o) (c_in o) else o) in *.
-           assert (Ha : c_in o1 = c_in o) by (subst o1; destruct md; reflexivity).
-           assert (Hlen1 : f_len (c_fl o1) = f_len (c_fl o)) by (subst o1; destruct md; reflexivity).
-           assert (Hmd1 : f_mdev (c_fl o1) = m || md).
-           { subst o1. destruct md eqn:Emd; cbn [c_fl set_mdev f_mdev].
-             - rewrite orb_true_r. reflexivity.
-             - rewrite orb_false_r. reflexivity. }
-           assert (Hpn : packable (norm i n) = true) by (rewrite packable_norm; exact Hn).
-           rewrite (write_unpack_packable o1 (norm i n) Hpn) in H.
-           match type of H with np_loop _ _ _ _ _ _ ?oo = _ => set (o2 := oo) in * end.
-           assert (Hin2 : c_in o2 = c_in o ++ [norm i n]) by (subst o2; cbn [c_in]; rewrite Ha; reflexivity).
-           assert (Hlen2 : len (c_in o2) = len (c_in o) + 1) by (rewrite Hin2, len_app; reflexivity).
-           assert (A1 : f_mdev (c_fl o2) = m || md)
-             by (subst o2; cbn [c_fl]; rewrite set_flags_mdev; exact Hmd1).
-           assert (A2 : f_len (c_fl o2) = len (c_in o2)).
-           { subst o2. cbn [c_fl]. rewrite set_flags_len, Hlen1, Hl. cbn [c_in]. rewrite Ha, len_app.
-             change (len [norm i n]) with 1. apply u16_small. pose proof (len_nonneg (c_in o)). lia. }
-           assert (A3 : m || md = false -> Forall (fun v => p_dev v = i) (c_in o2)).
-           { intro Hf. apply orb_false_elim in Hf. destruct Hf as [Hf1 Hf2]. rewrite Hin2.
-             apply Forall_app. split; [apply Hown; exact Hf1|]. constructor; [|constructor].
-             apply norm_own_dev. subst md. rewrite Hf1 in Hf2. cbn [negb] in Hf2. rewrite andb_true_r in Hf2.
-             destruct (is_own i n); [reflexivity|discriminate]. }
-           destruct (IH _ _ _ _ _ _ _ H Hr A1 A2 ltac:(lia) A3) as [H1 [H2 H3]].
-           repeat split; try assumption; lia.
+  intro H. unfold own_items. repeat split; rewrite Forall_forall in *; intros p Hp; specialize (H p Hp).
+  - left. exact H.
+  - intro Ho. rewrite expand_norm, (packable_not_cont _ H). constructor; [|constructor].
+    apply norm_own_dev. exact Ho.
+  - apply packable_not_cont. exact H.
+Qed.
+
+Lemma flat_map_expand_plain i l :
+  Forall (fun p => is_cont p = false) l -> flat_map expand (map (norm i) l) = map (norm i) l.
+Proof.
+  intro H. induction H as [|p l Hp _ IH]; [reflexivity|]. cbn [map flat_map].
+  rewrite expand_norm, Hp, IH. reflexivity.
+Qed.
+Lemma flat_map_wtags_plain l :
+  Forall (fun p => is_cont p = false) l -> flat_map wtags l = flat_map p_tags l.
+Proof.
+  intro H. induction H as [|p l Hp _ IH]; [reflexivity|]. cbn [flat_map]. unfold wtags at 1. rewrite Hp, IH. reflexivity.
 Qed.
 
 Lemma psize_pos p : 0 <= p_len p -> 0 < psize p.
@@ -527,20 +597,45 @@ Qed.
 
 (* ------------------------------------------------------------------ 4. one transmission *)
 
+(* what a queued item must be for the peer to process what it contributes: the packets it holds
+   are processable (in_ok), and an own item holds packets of our own device only *)
 Definition src_ok (reg : Z -> bool) (i : Z) (p : packet) : Prop :=
-  packable p = true /\ (is_own i p = true \/ reg (p_dev p) = true).
+  item_packable p /\ Forall (in_ok reg i) (expand (norm i p)) /\
+  (is_own i p = true -> Forall (fun v => p_dev v = i) (expand (norm i p))).
 
-Lemma src_ok_in_ok reg i p : i <> 0 -> src_ok reg i p -> in_ok reg i (norm i p).
+Lemma src_ok_plain reg i p :
+  i <> 0 -> packable p = true -> (is_own i p = true \/ reg (p_dev p) = true) -> src_ok reg i p.
 Proof.
-  intros Hi [Hp Hr]. unfold in_ok. rewrite packable_norm. split; [assumption|].
-  split; [apply norm_dev_nz; assumption|].
-  destruct (is_own i p) eqn:E.
-  - left. apply norm_own_dev. exact E.
-  - right. rewrite norm_foreign by assumption. destruct Hr; [discriminate|assumption].
+  intros Hi Hp Hr. unfold src_ok. rewrite expand_norm, (packable_not_cont _ Hp).
+  split; [left; exact Hp|]. split.
+  - constructor; [|constructor]. unfold in_ok. rewrite packable_norm. split; [assumption|].
+    split; [apply norm_dev_nz; assumption|].
+    destruct (is_own i p) eqn:E.
+    + left. apply norm_own_dev. exact E.
+    + right. rewrite norm_foreign by assumption. destruct Hr; [discriminate|assumption].
+  - intro Ho. constructor; [|constructor]. apply norm_own_dev. exact Ho.
 Qed.
 
 Lemma src_ok_retag reg c i p : src_ok reg i p -> src_ok reg i (retag c p).
-Proof. unfold src_ok. rewrite packable_retag, is_own_retag, p_dev_retag. exact (fun x => x). Qed.
+Proof.
+  unfold retag. destruct (c_ptags c) as [t|]; [|exact (fun h => h)].
+  unfold src_ok, item_packable. rewrite norm_set_tags.
+  change (packable (set_tags p t)) with (packable p). change (is_cont (set_tags p t)) with (is_cont p).
+  change (p_fl (set_tags p t)) with (p_fl p). change (p_in (set_tags p t)) with (p_in p).
+  change (is_own i (set_tags p t)) with (is_own i p).
+  intros [H1 [H2 H3]]. split; [exact H1|].
+  unfold expand in *. change (is_cont (set_tags (norm i p) t)) with (is_cont (norm i p)).
+  change (p_in (set_tags (norm i p) t)) with (p_in (norm i p)).
+  destruct (is_cont (norm i p)); [split; assumption|]. split.
+  - inversion H2; subst. constructor; [|constructor]. exact H4.
+  - intro Ho. specialize (H3 Ho). inversion H3; subst. constructor; [|constructor]. exact H4.
+Qed.
+
+Lemma src_ok_items reg i l :
+  Forall (src_ok reg i) l -> Forall item_packable l /\ own_items i l.
+Proof.
+  intro H. unfold own_items. split; rewrite Forall_forall in *; intros p Hp; apply (H p Hp).
+Qed.
 
 Lemma nonnop_map_untag_norm i l :
   nonnop (map (fun p => untag (norm i p)) l) = map (fun p => untag (norm i p)) (nonnop l).
@@ -552,99 +647,152 @@ Qed.
 Lemma map_norm_tags i l : flat_map p_tags (map (norm i) l) = flat_map p_tags l.
 Proof. induction l as [|p l IH]; [reflexivity|]. cbn [map flat_map]. rewrite p_tags_norm, IH. reflexivity. Qed.
 
+Lemma tx_packets_as_tx p : tx_packets (as_tx p) = expand p.
+Proof. unfold as_tx, expand. destruct (is_cont p); reflexivity. Qed.
+Lemma tx_tags_as_tx p : tx_tags (as_tx p) = p_tags p.
+Proof. unfold as_tx. destruct (is_cont p); reflexivity. Qed.
+Lemma map_untag_expand_set_tags p g : map untag (expand (set_tags p g)) = map untag (expand p).
+Proof.
+  unfold expand. change (is_cont (set_tags p g)) with (is_cont p). destruct (is_cont p); reflexivity.
+Qed.
+
+(* an own item sent as it is *)
+Lemma wf_tx_as_tx reg i n g :
+  i <> 0 -> src_ok reg i n -> is_own i n = true -> len (expand (norm i n)) <= 65535 ->
+  wf_tx reg i (as_tx (set_tags (norm i n) g)).
+Proof.
+  intros Hi [Hp [Hin Hown]] Ho Hb. specialize (Hown Ho). unfold as_tx.
+  change (is_cont (set_tags (norm i n) g)) with (is_cont (norm i n)).
+  unfold expand in *. rewrite is_cont_norm in *. destruct (is_cont n) eqn:Ec.
+  - cbn [wf_tx c_dev c_fl c_in set_tags p_dev p_fl p_in].
+    split; [apply norm_own_dev; exact Ho|].
+    destruct Hp as [Hp|[_ [H1 H2]]]; [rewrite (packable_not_cont _ Hp) in Ec; discriminate|].
+    rewrite p_fl_norm, p_in_norm in *.
+    split; [exact H2|]. split; [lia|]. split; [exact Hin|]. intros _. exact Hown.
+  - cbn [wf_tx set_tags p_dev]. split; [apply norm_own_dev; exact Ho|].
+    change (packable (set_tags (norm i n) g)) with (packable (norm i n)).
+    inversion Hin as [|? ? Hk _]; subst. apply Hk.
+Qed.
+
+Lemma cnt_firstn_head f n q : f <> O -> len (expand n) <= cnt (firstn f (n :: q)).
+Proof.
+  intro Hf. destruct f; [congruence|]. cbn [firstn]. rewrite cnt_cons. pose proof (cnt_nonneg (firstn f q)). lia.
+Qed.
+
 Lemma next_packet_spec reg F NP i n q t o k rest :
-  next_packet F NP i (Some n) q t = (o, k, rest) -> i <> 0 -> NP < 65536 ->
+  next_packet F NP i (Some n) q t = (o, k, rest) -> i <> 0 ->
   Forall (src_ok reg i) (n :: q) ->
+  cnt (firstn (Z.to_nat (Z.max NP 1)) (n :: q)) <= 65535 ->
   exists tx u kept,
     o = Some tx /\ q = u ++ optl k ++ rest /\
-    map untag (tx_packets tx) = map (fun p => untag (norm i p)) kept /\
+    map untag (tx_packets tx) = map untag (flat_map expand (map (norm i) kept)) /\
     nonnop kept = nonnop (n :: u) /\ incl kept (n :: u) /\
     wf_tx reg i tx /\
-    (forall x, In x (tx_tags tx) -> In x t \/ exists v, In v kept /\ In x (p_tags v)) /\
-    (forall v x, In v kept -> In x (p_tags v) -> In x (tx_tags tx)) /\
-    (match tx with TMulti c => c_in c = map (norm i) kept | TSingle _ => True end).
+    (Forall (fun p => is_cont p = false) (n :: q) ->
+     (forall x, In x (tx_tags tx) -> In x t \/ exists v, In v kept /\ In x (p_tags v)) /\
+     (forall v x, In v kept -> In x (p_tags v) -> In x (tx_tags tx)) /\
+     (match tx with TMulti c => c_in c = map (norm i) kept | TSingle _ => True end)).
 Proof.
-  intros H Hi HNP Hall. unfold next_packet in H.
+  intros H Hi Hall HB. unfold next_packet in H.
   inversion Hall as [|? ? Hn Hq]; subst.
+  assert (Hhead : len (expand (norm i n)) <= 65535).
+  { rewrite len_expand_norm. pose proof (cnt_firstn_head (Z.to_nat (Z.max NP 1)) n q ltac:(lia)). lia. }
   destruct ((NP <=? 1) || is_nil q) eqn:Efast.
   - (* fast path *)
     destruct (is_own i n) eqn:Eown.
-    + inversion H; subst. exists (TSingle (set_tags (norm i n) (p_tags n ++ t))), [], [n].
-      cbn [optl app tx_packets map tx_tags set_tags p_tags wf_tx p_dev].
-      repeat split; try reflexivity.
-      * intros x Hx. exact Hx.
-      * apply norm_own_dev. exact Eown.
-      * rewrite packable_set_tags, packable_norm. apply Hn.
+    + inversion H; subst. exists (as_tx (set_tags (norm i n) (p_tags n ++ t))), [], [n].
+      cbn [optl app map flat_map]. rewrite app_nil_r, tx_packets_as_tx, map_untag_expand_set_tags, tx_tags_as_tx.
+      cbn [set_tags p_tags].
+      split; [reflexivity|]. split; [reflexivity|]. split; [reflexivity|]. split; [reflexivity|].
+      split; [intros x Hx; exact Hx|]. split; [apply wf_tx_as_tx; assumption|].
+      intro Hpl. inversion Hpl as [|? ? Hcn _]; subst.
+      split; [|split].
       * intros x Hx. apply in_app_or in Hx. destruct Hx as [Hx|Hx]; [right|left; exact Hx].
         exists n. split; [left; reflexivity|exact Hx].
       * intros v x [Hv|[]] Hx. subst v. apply in_or_app. left. exact Hx.
-    + destruct Hn as [Hpn Hrn].
-      rewrite (write_unpack_packable _ n Hpn) in H. cbn [c_dev c_fl c_tags c_in app] in H.
-      inversion H; subst.
+      * unfold as_tx. change (is_cont (set_tags (norm i n) (p_tags n ++ t))) with (is_cont (norm i n)).
+        rewrite is_cont_norm, Hcn. exact I.
+    + destruct Hn as [Hpn [Hin _]].
+      pose proof (norm_foreign i n Eown) as Hnf. rewrite Hnf in Hin, Hhead.
+      destruct (write_unpack_gen (mkC i fl_multi_mdev [] []) n Hpn eq_refl)
+        as [W1 [W2 [W3 [W4 W5]]]].
+      { cbn [c_in]. rewrite len_nil. lia. }
+      cbn [c_dev c_in c_tags c_fl app] in W1, W2, W3, W4.
+      inversion H; subst o k rest. clear H.
       eexists (TMulti _), [], [n]. split; [reflexivity|].
-      cbn [optl app tx_packets map tx_tags c_tags wf_tx c_dev c_fl c_in].
-      rewrite set_flags_len, set_flags_mdev. cbn [fl_multi_mdev f_len f_mdev].
-      rewrite (norm_foreign i n Eown).
-      repeat split; try reflexivity; try (cbn; lia).
-      * intros x Hx. exact Hx.
-      * constructor; [|constructor]. rewrite <- (norm_foreign i n Eown).
-        apply src_ok_in_ok; [assumption|]. split; assumption.
-      * intros x Hx. apply in_app_or in Hx. destruct Hx as [Hx|Hx]; [right|left; exact Hx].
-        exists n. split; [left; reflexivity|exact Hx].
-      * intros v x [Hv|[]] Hx. subst v. apply in_or_app. left. exact Hx.
+      cbn [optl app tx_packets map flat_map tx_tags c_tags wf_tx c_dev c_fl c_in].
+      rewrite app_nil_r, W2, Hnf.
+      split; [reflexivity|]. split; [reflexivity|]. split; [reflexivity|]. split; [intros x Hx; exact Hx|].
+      split.
+      * rewrite W1, W5, W2. split; [reflexivity|]. split; [reflexivity|]. split; [lia|]. split; [exact Hin|].
+        rewrite W4. cbn [fl_multi_mdev f_mdev]. discriminate.
+      * intro Hpl. inversion Hpl as [|? ? Hcn _]; subst. rewrite W3.
+        unfold wtags. rewrite Hcn.
+        split; [|split].
+        -- intros x Hx. apply in_app_or in Hx. destruct Hx as [Hx|Hx]; [right|left; exact Hx].
+           exists n. split; [left; reflexivity|exact Hx].
+        -- intros v x [Hv|[]] Hx. subst v. apply in_or_app. left. exact Hx.
+        -- rewrite (expand_plain _ Hcn). reflexivity.
   - (* the loop *)
     apply orb_false_elim in Efast. destruct Efast as [E1 E2].
     destruct (np_loop F i (Z.to_nat NP) (n :: q) 0 false (mkC i fl_multi [] [])) as [[o' k'] rest'] eqn:EL.
     inversion H; subst. clear H.
-    assert (Hpk : Forall (fun p => packable p = true) (n :: q)).
-    { rewrite Forall_forall in *. intros x Hx. apply (Hall x Hx). }
-    destruct (np_loop_struct _ _ _ _ _ _ _ _ _ _ EL Hpk)
-      as [used [kept [H1 [H2 [H3 [H4 [H5 [H6 [H7 H8]]]]]]]]].
+    destruct (src_ok_items _ _ _ Hall) as [Hpk Hoi].
+    assert (HB' : len (c_in (mkC i fl_multi [] [])) + cnt (firstn (Z.to_nat NP) (n :: q)) <= 65535).
+    { cbn [c_in]. rewrite len_nil. replace (Z.max NP 1) with NP in HB by lia. lia. }
+    destruct (np_loop_struct _ _ _ _ _ _ _ _ _ _ EL Hpk Hoi eq_refl (fun _ => Forall_nil _) eq_refl HB')
+      as [used [kept [H1 [H2 [H3 [H4 [H5 [H6 [H7 [H8 [G1 [G3 G5]]]]]]]]]]]].
     cbn [c_in c_tags c_dev app] in H2, H3, H4.
     assert (Hfuel : Z.to_nat NP <> O) by lia.
     specialize (H8 eq_refl Hfuel ltac:(discriminate)).
     destruct used as [|n' u]; [congruence|].
     cbn [app] in H1. injection H1 as Hnn Hqq. subst n'.
-    destruct (np_loop_flags _ _ _ _ _ _ _ _ _ _ EL Hpk eq_refl eq_refl) as [G1 [G2 G3]].
-    { cbn [c_in]. rewrite len_nil. lia. }
-    { intros _. constructor. }
-    cbn [c_in] in G2. rewrite len_nil in G2.
-    assert (Hkept_ok : Forall (in_ok reg i) (map (norm i) kept)).
-    { rewrite Forall_forall. intros v Hv. apply in_map_iff in Hv. destruct Hv as [p [Hp1 Hp2]]. subst v.
-      apply src_ok_in_ok; [assumption|]. rewrite Forall_forall in Hall. apply Hall.
-      apply H6 in Hp2. destruct Hp2 as [Hp2|Hp2]; [left; exact Hp2|right].
-      rewrite Hqq. apply in_or_app. left. exact Hp2. }
+    assert (Hkept_ok : Forall (in_ok reg i) (c_in o')).
+    { rewrite H2, Forall_forall. intros v Hv. apply in_flat_map in Hv. destruct Hv as [p' [Hp1 Hp2]].
+      apply in_map_iff in Hp1. destruct Hp1 as [p [Hp0 Hp1]]. subst p'.
+      assert (Hin : In p (n :: q)).
+      { apply H6 in Hp1. destruct Hp1 as [Hp1|Hp1]; [left; exact Hp1|right].
+        rewrite Hqq. apply in_or_app. left. exact Hp1. }
+      rewrite Forall_forall in Hall. destruct (Hall p Hin) as [_ [Hi2 _]].
+      rewrite Forall_forall in Hi2. apply Hi2. exact Hp2. }
+    assert (Hcount : len (c_in o') <= 65535) by lia.
     assert (Hmulti : wf_tx reg i (TMulti o')).
-    { cbn [wf_tx]. rewrite H2. split; [assumption|]. split; [rewrite <- H2; assumption|].
-      split; [rewrite <- H2; lia|]. split; [assumption|]. rewrite <- H2. exact G3. }
-    assert (Htags : forall x, In x (c_tags o') <-> exists v, In v kept /\ In x (p_tags v)).
-    { intro x. rewrite H3. apply in_flat_map. }
+    { cbn [wf_tx]. split; [assumption|]. split; [assumption|]. split; [lia|]. split; [assumption|exact G3]. }
+    assert (Hplain : Forall (fun p => is_cont p = false) (n :: q) -> Forall (fun p => is_cont p = false) kept).
+    { intro Hpl. rewrite Forall_forall in *. intros p Hp. apply Hpl.
+      apply H6 in Hp. destruct Hp as [Hp|Hp]; [left; exact Hp|right]. rewrite Hqq. apply in_or_app. left. exact Hp. }
+    assert (Htags : Forall (fun p => is_cont p = false) (n :: q) ->
+                    forall x, In x (c_tags o') <-> exists v, In v kept /\ In x (p_tags v)).
+    { intros Hpl x. rewrite H3, (flat_map_wtags_plain _ (Hplain Hpl)). apply in_flat_map. }
     assert (Hmcase : exists tx u0 kept0,
       Some (TMulti o') = Some tx /\ q = u0 ++ optl k ++ rest /\
-      map untag (tx_packets tx) = map (fun p => untag (norm i p)) kept0 /\
+      map untag (tx_packets tx) = map untag (flat_map expand (map (norm i) kept0)) /\
       nonnop kept0 = nonnop (n :: u0) /\ incl kept0 (n :: u0) /\ wf_tx reg i tx /\
-      (forall x, In x (tx_tags tx) -> In x t \/ exists v, In v kept0 /\ In x (p_tags v)) /\
-      (forall v x, In v kept0 -> In x (p_tags v) -> In x (tx_tags tx)) /\
-      (match tx with TMulti c => c_in c = map (norm i) kept0 | TSingle _ => True end)).
+      (Forall (fun p => is_cont p = false) (n :: q) ->
+       (forall x, In x (tx_tags tx) -> In x t \/ exists v, In v kept0 /\ In x (p_tags v)) /\
+       (forall v x, In v kept0 -> In x (p_tags v) -> In x (tx_tags tx)) /\
+       (match tx with TMulti c => c_in c = map (norm i) kept0 | TSingle _ => True end))).
     { exists (TMulti o'), u, kept.
       split; [reflexivity|]. split; [exact Hqq|].
-      split; [cbn [tx_packets]; rewrite H2, map_map; reflexivity|].
+      split; [cbn [tx_packets]; rewrite H2; reflexivity|].
       split; [exact H5|]. split; [exact H6|]. split; [exact Hmulti|].
-      split; [intros x Hx; right; apply Htags; exact Hx|].
-      split; [intros v0 x Hv Hx; apply Htags; exists v0; split; assumption|].
-      exact H2. }
+      intro Hpl. split; [intros x Hx; right; apply (Htags Hpl); exact Hx|].
+      split; [intros v0 x Hv Hx; apply (Htags Hpl); exists v0; split; assumption|].
+      cbn [tx_tags]. rewrite H2. apply flat_map_expand_plain. exact (Hplain Hpl). }
     unfold unwrap.
     destruct ((f_len (c_fl o') =? 1) && negb (f_mdev (c_fl o'))) eqn:EU; [|exact Hmcase].
     apply andb_prop in EU. destruct EU as [EU1 EU2].
     destruct (c_in o') as [|v [|w r]] eqn:Ein; [exact Hmcase| |exact Hmcase].
+    exists (TSingle v), u, kept. cbn [tx_packets tx_tags wf_tx].
+    split; [reflexivity|]. split; [exact Hqq|]. split; [rewrite <- H2; reflexivity|].
+    split; [exact H5|]. split; [exact H6|]. split.
+    { destruct (f_mdev (c_fl o')); [discriminate|]. specialize (G3 eq_refl).
+      inversion G3; subst. inversion Hkept_ok as [|? ? Hk _]; subst. split; [assumption|apply Hk]. }
+    intro Hpl. rewrite (flat_map_expand_plain i kept (Hplain Hpl)) in H2.
     destruct kept as [|p [|p2 kr]]; try discriminate. cbn [map] in H2. injection H2 as H2. subst v.
-    exists (TSingle (norm i p)), u, [p]. cbn [tx_packets map tx_tags wf_tx].
-    repeat split; try assumption; try reflexivity.
-    -- destruct (f_mdev (c_fl o')); [discriminate|]. specialize (G3 eq_refl).
-       inversion G3; assumption.
-    -- cbn [map] in Hkept_ok. inversion Hkept_ok as [|? ? Hk _]. apply Hk.
-    -- intros x Hx. right. exists p. split; [left; reflexivity|]. rewrite p_tags_norm in Hx. exact Hx.
-    -- intros v x [Hv|[]] Hx. subst v. rewrite p_tags_norm. exact Hx.
+    split; [|split; [|exact I]].
+    + intros x Hx. right. exists p. split; [left; reflexivity|]. rewrite p_tags_norm in Hx. exact Hx.
+    + intros v x [Hv|[]] Hx. subst v. rewrite p_tags_norm. exact Hx.
 Qed.
 
 (* --- Session.next: pick, the abandoned group --- *)
@@ -740,7 +888,7 @@ Qed.
 (* the shapes of one call of next() *)
 Lemma session_next_cases c st tx st' :
   session_next c st = (Some tx, st') ->
-  (exists p, tx = TSingle p /\ st' = mkS [] None 0 /\
+  (exists p, tx = as_tx p /\ st' = mkS [] None 0 /\
      ((pending st = [] /\ p = norm (c_own c) (retag c (keepalive (c_own c) []))) \/
       (exists n0, pending st = [n0] /\ is_own (c_own c) n0 = true /\ p = norm (c_own c) (retag c n0)) \/
       (exists n0 q, pending st = n0 :: q /\ abandon (c_own c) (s_last st) (pending st) = [] /\
@@ -753,7 +901,7 @@ Lemma session_next_cases c st tx st' :
   \/
   (exists n0 q, pending st = n0 :: q /\ q <> [] /\
      f_crypt (p_fl n0) && is_own (c_own c) n0 = true /\
-     tx = TSingle (norm (c_own c) (retag c n0)) /\ st' = mkS q None (s_last st)).
+     tx = as_tx (norm (c_own c) (retag c n0)) /\ st' = mkS q None (s_last st)).
 Proof.
   intro H. unfold session_next in H.
   destruct (pick_spec c st) as [[Hp Hk]|[n0 [q [Hp Hk]]]]; rewrite Hk in H.
@@ -788,7 +936,8 @@ Proof.
         rewrite Hg in H.
         pose proof (skip_group_spec _ _ _ _ _ ES') as Hsp. fold (in_group (s_last st) n1') in H |- *.
         destruct Hsp as [[G1 [G2 G3]]|[G1 G2]]; rewrite G1 in H |- *.
-        -- inversion H; subst. left. eexists. split; [reflexivity|]. split; [reflexivity|].
+        -- inversion H; subst. left. exists (keepalive (c_own c) (p_tags (retag c n0))).
+           split; [reflexivity|]. split; [reflexivity|].
            right. right. exists n0, q. repeat split; reflexivity.
         -- right. left. exists n0, q, (takewhile (in_group (s_last st)) (n0 :: q)), n1', n1, q1.
            split; [reflexivity|]. split; [rewrite <- G2; apply take_drop_while|].
@@ -837,24 +986,100 @@ Proof.
   - unfold retag. destruct (c_ptags c); reflexivity.
 Qed.
 
+(* what a list of queued items puts into transmissions: the packets they hold, device filled in, tags aside *)
+Definition sent (i : Z) (l : list packet) : list packet := map untag (flat_map expand (map (norm i) l)).
+
+Lemma flags_eqb_cont a b : flags_eqb a b = true -> f_multi a = f_multi b /\ f_mdev a = f_mdev b.
+Proof.
+  unfold flags_eqb. intro H. repeat (apply andb_prop in H; destruct H as [H ?]).
+  split; apply eqb_prop; assumption.
+Qed.
+Lemma nop_not_cont p : is_nop p = true -> is_cont p = false.
+Proof.
+  unfold is_nop, is_cont. intro H. apply andb_prop in H. destruct H as [_ H]. apply orb_prop in H.
+  destruct H as [H|H]; apply flags_eqb_cont in H; destruct H as [H1 H2]; rewrite H1, H2; reflexivity.
+Qed.
+
+Lemma sent_cons i p l : sent i (p :: l) = map untag (expand (norm i p)) ++ sent i l.
+Proof. unfold sent. cbn [map flat_map]. apply map_app. Qed.
+Lemma sent_app i a b : sent i (a ++ b) = sent i a ++ sent i b.
+Proof. induction a as [|p a IH]; [reflexivity|]. cbn [app]. rewrite !sent_cons, IH, app_assoc. reflexivity. Qed.
+
+Lemma sent_nonnop i l : nonnop (sent i l) = nonnop (sent i (nonnop l)).
+Proof.
+  induction l as [|p l IH]; [reflexivity|]. destruct (is_nop p) eqn:En.
+  - rewrite (nonnop_cons_nop p l En), sent_cons, nonnop_app, IH.
+    rewrite expand_norm, (nop_not_cont _ En). cbn [map]. rewrite nonnop_cons_nop; [reflexivity|].
+    rewrite is_nop_untag, is_nop_norm. exact En.
+  - assert (Hc : nonnop (p :: l) = p :: nonnop l) by (unfold nonnop; cbn [filter]; rewrite En; reflexivity).
+    rewrite Hc, !sent_cons, !nonnop_app, IH. reflexivity.
+Qed.
+
+Lemma sent_retag_head c i p l : sent i (retag c p :: l) = sent i (p :: l).
+Proof.
+  rewrite !sent_cons. f_equal. unfold retag. destruct (c_ptags c); [|reflexivity].
+  rewrite norm_set_tags. apply map_untag_expand_set_tags.
+Qed.
+
+Lemma as_tx_set_tags p g : as_tx (set_tags p g) = tx_set_tags (as_tx p) g.
+Proof. unfold as_tx. change (is_cont (set_tags p g)) with (is_cont p). destruct (is_cont p); reflexivity. Qed.
+
+Lemma wf_tx_as_tx_norm reg i n :
+  i <> 0 -> src_ok reg i n -> is_own i n = true -> len (expand (norm i n)) <= 65535 ->
+  wf_tx reg i (as_tx (norm i n)).
+Proof.
+  intros Hi Hs Ho Hb. pose proof (wf_tx_as_tx reg i n (p_tags (norm i n)) Hi Hs Ho Hb) as H.
+  rewrite as_tx_set_tags in H. destruct (as_tx (norm i n)) as [p|o] eqn:E; cbn [tx_set_tags wf_tx] in *; exact H.
+Qed.
+
+(* the count bound every transmission needs: the packets held by the first limits.Packets items of any
+   suffix of the queue fit the 16-bit count of a container *)
+Definition qbound (NP : Z) (l : list packet) : Prop :=
+  forall pre suf, l = pre ++ suf -> cnt (firstn (Z.to_nat (Z.max NP 1)) suf) <= 65535.
+
+Lemma qbound_suffix NP a b : qbound NP (a ++ b) -> qbound NP b.
+Proof. intros H pre suf E. apply (H (a ++ pre) suf). rewrite E, app_assoc. reflexivity. Qed.
+Lemma qbound_here NP l : qbound NP l -> cnt (firstn (Z.to_nat (Z.max NP 1)) l) <= 65535.
+Proof. intro H. exact (H [] l eq_refl). Qed.
+Lemma cnt_app a b : cnt (a ++ b) = cnt a + cnt b.
+Proof. unfold cnt. rewrite flat_map_app. apply len_app. Qed.
+Lemma qbound_total NP l : cnt l <= 65535 -> qbound NP l.
+Proof.
+  intros H pre suf E. subst l. rewrite cnt_app in H. pose proof (cnt_nonneg pre).
+  pose proof (cnt_firstn_le (Z.to_nat (Z.max NP 1)) suf). lia.
+Qed.
+Lemma qbound_plain NP l : NP < 65536 -> Forall (fun p => is_cont p = false) l -> qbound NP l.
+Proof.
+  intros HN H pre suf E. subst l. apply Forall_app in H. destruct H as [_ H].
+  pose proof (cnt_plain_firstn (Z.to_nat (Z.max NP 1)) suf H). lia.
+Qed.
+Lemma cnt_firstn_retag c f p l : cnt (firstn f (retag c p :: l)) = cnt (firstn f (p :: l)).
+Proof.
+  destruct f; [reflexivity|]. cbn [firstn]. rewrite !cnt_cons. f_equal.
+  unfold retag. destruct (c_ptags c); [|reflexivity]. unfold expand.
+  change (is_cont (set_tags p l0)) with (is_cont p). destruct (is_cont p); reflexivity.
+Qed.
+
 Lemma finish_spec c reg n1 q1 t tx st' :
   finish c n1 q1 t = (Some tx, st') -> wf_conf c -> Forall (src_ok reg (c_own c)) (n1 :: q1) ->
+  cnt (firstn (Z.to_nat (Z.max (c_packets c) 1)) (n1 :: q1)) <= 65535 ->
   exists u kept,
     q1 = u ++ pending st' /\ s_last st' = 0 /\
-    map untag (tx_packets tx) = map (fun p => untag (norm (c_own c) p)) kept /\
+    map untag (tx_packets tx) = sent (c_own c) kept /\
     nonnop kept = nonnop (n1 :: u) /\ incl kept (n1 :: u) /\
     wf_tx reg (c_own c) tx /\
-    (forall y, In y (tx_tags tx) <-> In y t \/ exists v, In v (tx_packets tx) /\ In y (p_tags v)).
+    (Forall (fun p => is_cont p = false) (n1 :: q1) ->
+     forall y, In y (tx_tags tx) <-> In y t \/ exists v, In v (tx_packets tx) /\ In y (p_tags v)).
 Proof.
-  intros H [Hi HNP] Hall. unfold finish in H.
+  intros H [Hi HNP] Hall HB. unfold finish in H.
   destruct (next_packet (c_frag c) (c_packets c) (c_own c) (Some n1) q1 t) as [[o k] rest] eqn:EN.
-  destruct (next_packet_spec reg _ _ _ _ _ _ _ _ _ EN Hi HNP Hall)
-    as [x [u [kept [H0 [H1 [H2 [H3 [H4 [H5 [H6 [H7 H8]]]]]]]]]]].
+  destruct (next_packet_spec reg _ _ _ _ _ _ _ _ _ EN Hi Hall HB)
+    as [x [u [kept [H0 [H1 [H2 [H3 [H4 [H5 HT]]]]]]]]].
   subst o. inversion H; subst. clear H.
   exists u, kept. rewrite pending_mkS. split; [reflexivity|]. split; [reflexivity|].
   rewrite tx_packets_set_tags. split; [exact H2|]. split; [exact H3|]. split; [exact H4|].
   split; [apply wf_tx_set_tags; exact H5|].
-  intro y. rewrite tx_tags_set_tags, merge_tags_in.
+  intros Hpl y. destruct (HT Hpl) as [H6 [H7 H8]]. rewrite tx_tags_set_tags, merge_tags_in.
   destruct x as [p|o]; cbn [tx_set_tags tx_packets tx_tags] in *.
   - split.
     + intro Hy. right. eexists. split; [left; reflexivity|]. cbn [set_tags p_tags].
@@ -868,75 +1093,100 @@ Proof.
       destruct Hv as [w [Hw1 Hw2]]. subst v. rewrite p_tags_norm in Hy. exact (H7 w y Hw2 Hy).
 Qed.
 
+Lemma plain_as_tx i c n : is_cont n = false -> as_tx (norm i (retag c n)) = TSingle (norm i (retag c n)).
+Proof.
+  intro H. unfold as_tx. rewrite is_cont_norm. unfold retag. destruct (c_ptags c); 
+    [change (is_cont (set_tags n l)) with (is_cont n)|]; rewrite H; reflexivity.
+Qed.
+
 (* one call of next(): what it consumes, what it sends, what it leaves *)
 Lemma session_next_spec c reg st tx st' :
-  wf_conf c -> Forall (src_ok reg (c_own c)) (pending st) ->
+  wf_conf c -> Forall (src_ok reg (c_own c)) (pending st) -> qbound (c_packets c) (pending st) ->
   session_next c st = (Some tx, st') ->
   exists dropped used,
     pending st = dropped ++ used ++ pending st' /\
     abandon (c_own c) (s_last st) (pending st) = used ++ abandon (c_own c) (s_last st') (pending st') /\
     (s_last st' = 0 \/ s_last st' = s_last st) /\
     (pending st <> [] -> dropped ++ used <> []) /\
-    nonnop (map untag (tx_packets tx)) = nonnop (map (fun p => untag (norm (c_own c) p)) used) /\
+    nonnop (map untag (tx_packets tx)) = nonnop (sent (c_own c) used) /\
     wf_tx reg (c_own c) tx /\
-    (forall y, In y (tx_tags tx) <-> In y (first_tags c st) \/ exists v, In v (tx_packets tx) /\ In y (p_tags v)).
+    (Forall (fun p => is_cont p = false) (pending st) ->
+     forall y, In y (tx_tags tx) <-> In y (first_tags c st) \/ exists v, In v (tx_packets tx) /\ In y (p_tags v)).
 Proof.
-  intros Hw Hall H. pose proof Hw as [Hi HNP].
+  intros Hw Hall HQ H. pose proof Hw as [Hi HNP].
   assert (Hsingle_tags : forall p, (forall y, In y (first_tags c st) -> In y (p_tags p)) ->
             forall y, In y (tx_tags (TSingle p)) <-> In y (first_tags c st) \/ exists v, In v (tx_packets (TSingle p)) /\ In y (p_tags v)).
   { intros p Hsub y. cbn [tx_tags tx_packets]. split.
     - intro Hy. right. exists p. split; [left; reflexivity|exact Hy].
     - intros [Hy|[v [[Hv|[]] Hy]]]; [apply Hsub; exact Hy|subst v; exact Hy]. }
+  (* an own item sent as it is (lone, or key material) *)
+  assert (Hasis : forall n0 rest0, pending st = n0 :: rest0 -> is_own (c_own c) n0 = true ->
+            nonnop (map untag (tx_packets (as_tx (norm (c_own c) (retag c n0))))) = nonnop (sent (c_own c) [n0]) /\
+            wf_tx reg (c_own c) (as_tx (norm (c_own c) (retag c n0))) /\
+            (Forall (fun p => is_cont p = false) (pending st) ->
+             forall y, In y (tx_tags (as_tx (norm (c_own c) (retag c n0)))) <->
+                       In y (first_tags c st) \/ exists v, In v (tx_packets (as_tx (norm (c_own c) (retag c n0)))) /\ In y (p_tags v))).
+  { intros n0 rest0 Hp Hown. rewrite Hp in Hall, HQ. inversion Hall as [|? ? Hn0 _]; subst.
+    split; [|split].
+    - rewrite tx_packets_as_tx. rewrite <- (sent_retag_head c (c_own c) n0 []). unfold sent. cbn [map flat_map].
+      rewrite app_nil_r. reflexivity.
+    - apply wf_tx_as_tx_norm; [exact Hi|apply src_ok_retag; exact Hn0|rewrite is_own_retag; exact Hown|].
+      rewrite len_expand_norm. pose proof (qbound_here _ _ HQ) as HB. rewrite <- (cnt_firstn_retag c) in HB.
+      pose proof (cnt_firstn_head (Z.to_nat (Z.max (c_packets c) 1)) (retag c n0) rest0 ltac:(lia)). lia.
+    - intro Hpl. rewrite Hp in Hpl. inversion Hpl as [|? ? Hcn _]; subst. rewrite (plain_as_tx _ _ _ Hcn).
+      apply Hsingle_tags. rewrite first_tags_spec, Hp, p_tags_norm. exact (fun y h => h). }
   destruct (session_next_cases _ _ _ _ H) as [[p [Htx [Hst Hc]]]|[[n0 [q [dropped [n1' [n1 [q1 [Hp [Hsplit [Hab [Hrel Hfin]]]]]]]]]]|[n0 [q [Hp [Hqne [HC [Htx Hst]]]]]]]].
   - subst tx st'. change (pending (mkS [] None 0)) with (@nil packet). cbn [s_last].
     change (abandon (c_own c) 0 []) with (@nil packet).
     destruct Hc as [[Hp Hpk]|[[n0 [Hp [Hown Hpk]]]|[n0 [q [Hp [Hab Hpk]]]]]].
     + exists [], []. rewrite Hp. cbn [app].
       split; [reflexivity|]. split; [reflexivity|]. split; [left; reflexivity|]. split; [congruence|].
-      split; [|split].
+      assert (Hka : as_tx p = TSingle p) by (subst p; apply plain_as_tx; reflexivity).
+      rewrite Hka. split; [|split].
       * subst p. cbn [tx_packets map]. rewrite nonnop_cons_nop; [reflexivity|].
         rewrite is_nop_untag, is_nop_norm, is_nop_retag. reflexivity.
       * subst p. cbn [wf_tx]. split; [apply norm_own_dev; rewrite is_own_retag; apply keepalive_own|].
         rewrite packable_norm, packable_retag. reflexivity.
-      * apply Hsingle_tags. rewrite first_tags_spec, Hp. subst p. rewrite p_tags_norm.
+      * intros _. apply Hsingle_tags. rewrite first_tags_spec, Hp. subst p. rewrite p_tags_norm.
         destruct (c_inter c); [intros y []|exact (fun y h => h)].
-    + exists [], [n0]. rewrite Hp. cbn [app]. rewrite Hp in Hall. inversion Hall as [|? ? Hn0 _]; subst.
+    + exists [], [n0]. subst p. destruct (Hasis n0 [] Hp Hown) as [A1 [A2 A3]]. rewrite Hp. cbn [app].
       split; [reflexivity|]. split.
       { cbn [abandon is_nil andb]. rewrite Hown. reflexivity. }
-      split; [left; reflexivity|]. split; [congruence|]. split; [|split].
-      * cbn [tx_packets map]. rewrite retag_untag_norm. reflexivity.
-      * cbn [wf_tx]. split; [apply norm_own_dev; rewrite is_own_retag; exact Hown|].
-        rewrite packable_norm, packable_retag. apply Hn0.
-      * apply Hsingle_tags. rewrite first_tags_spec, Hp, p_tags_norm. exact (fun y h => h).
+      split; [left; reflexivity|]. split; [congruence|]. split; [exact A1|]. split; [exact A2|].
+      rewrite <- Hp. exact A3.
     + exists (pending st), []. cbn [app]. rewrite app_nil_r.
       split; [reflexivity|]. split; [exact Hab|]. split; [left; reflexivity|]. split; [exact (fun h => h)|].
-      split; [|split].
-      * subst p. reflexivity.
-      * subst p. cbn [wf_tx]. split; reflexivity.
-      * apply Hsingle_tags. rewrite first_tags_spec, Hp. subst p. exact (fun y h => h).
+      subst p. change (as_tx (keepalive (c_own c) (p_tags (retag c n0)))) with (TSingle (keepalive (c_own c) (p_tags (retag c n0)))).
+      split; [reflexivity|]. split; [cbn [wf_tx]; split; reflexivity|].
+      intros _. apply Hsingle_tags. rewrite first_tags_spec, Hp. exact (fun y h => h).
   - assert (Hsuf : Forall (src_ok reg (c_own c)) (n1' :: q1)).
     { rewrite Hsplit in Hall. apply Forall_app in Hall. apply Hall. }
     assert (Hall1 : Forall (src_ok reg (c_own c)) (n1 :: q1)).
     { inversion Hsuf as [|? ? Ha Hb]; subst. constructor; [|exact Hb].
       destruct Hrel as [Hr|Hr]; subst n1; [exact Ha|apply src_ok_retag; exact Ha]. }
-    destruct (finish_spec _ reg _ _ _ _ _ Hfin Hw Hall1) as [u [kept [F1 [F2 [F3 [F4 [F5 [F6 F7]]]]]]]].
+    assert (HB1 : cnt (firstn (Z.to_nat (Z.max (c_packets c) 1)) (n1 :: q1)) <= 65535).
+    { rewrite Hsplit in HQ. apply qbound_suffix in HQ. apply qbound_here in HQ.
+      destruct Hrel as [Hr|Hr]; subst n1; [exact HQ|rewrite cnt_firstn_retag; exact HQ]. }
+    destruct (finish_spec _ reg _ _ _ _ _ Hfin Hw Hall1 HB1) as [u [kept [F1 [F2 [F3 [F4 [F5 [F6 F7]]]]]]]].
     exists dropped, (n1' :: u).
     split; [rewrite Hsplit, F1; reflexivity|]. split; [rewrite Hab, F1, F2, abandon_zero; reflexivity|].
     split; [left; exact F2|]. split; [intros _; destruct dropped; discriminate|].
     split; [|split; [exact F6|]].
-    + rewrite F3, nonnop_map_untag_norm, F4, <- nonnop_map_untag_norm. cbn [map].
-      destruct Hrel as [Hr|Hr]; subst n1; [reflexivity|]. rewrite retag_untag_norm. reflexivity.
-    + intro y. rewrite first_tags_spec, Hp. apply F7.
+    + rewrite F3, sent_nonnop, F4, <- sent_nonnop.
+      destruct Hrel as [Hr|Hr]; subst n1; [reflexivity|]. rewrite sent_retag_head. reflexivity.
+    + intros Hpl y. rewrite first_tags_spec, Hp. apply F7.
+      rewrite Hsplit in Hpl. apply Forall_app in Hpl. destruct Hpl as [_ Hpl].
+      inversion Hpl as [|? ? Ha Hb]; subst. constructor; [|exact Hb].
+      destruct Hrel as [Hr|Hr]; subst n1; [exact Ha|].
+      unfold retag. destruct (c_ptags c); [exact Ha|exact Ha].
   - subst tx st'. rewrite pending_mkS. cbn [optl app s_last].
-    exists [], [n0]. rewrite Hp. cbn [app]. rewrite Hp in Hall. inversion Hall as [|? ? Hn0 _]; subst.
     apply andb_prop in HC. destruct HC as [HC1 Hown].
+    destruct (Hasis n0 q Hp Hown) as [A1 [A2 A3]].
+    exists [], [n0]. rewrite Hp. cbn [app].
     split; [reflexivity|]. split.
     { cbn [abandon]. rewrite HC1, Hown. destruct q; [congruence|]. reflexivity. }
-    split; [right; reflexivity|]. split; [congruence|]. split; [|split].
-    + cbn [tx_packets map]. rewrite retag_untag_norm. reflexivity.
-    + cbn [wf_tx]. split; [apply norm_own_dev; rewrite is_own_retag; exact Hown|].
-      rewrite packable_norm, packable_retag. apply Hn0.
-    + apply Hsingle_tags. rewrite first_tags_spec, Hp, p_tags_norm. exact (fun y h => h).
+    split; [right; reflexivity|]. split; [congruence|]. split; [exact A1|]. split; [exact A2|].
+    rewrite <- Hp. exact A3.
 Qed.
 
 (* ------------------------------------------------------------------ 5. draining *)
@@ -974,24 +1224,38 @@ Qed.
 
 (* what the peer's handlers see of one transmission is what direct processing of the consumed
    packets would have produced; the only possible error is the empty container *)
+(* per item: what the peer does with what the item put on the wire = direct processing of the packets it holds *)
+Lemma sent_direct reg i l :
+  Forall (src_ok reg i) l -> flat_map direct' (sent i l) = flat_map (direct i) (flatten l).
+Proof.
+  intro H. induction H as [|p l [_ [Hin _]] _ IH]; [reflexivity|].
+  rewrite sent_cons. unfold flatten in *. cbn [flat_map]. rewrite !flat_map_app, IH. f_equal.
+  rewrite expand_norm in *. unfold expand. destruct (is_cont p).
+  - clear - Hin.
+    induction Hin as [|v l [_ [Hd _]] _ IH]; [reflexivity|]. cbn [map flat_map]. rewrite IH. f_equal.
+    rewrite direct_direct'. unfold norm. replace (p_dev v =? 0) with false by lia. reflexivity.
+  - cbn [map flat_map]. rewrite !app_nil_r. reflexivity.
+Qed.
+
 Lemma step_spec c reg st tx st' :
-  wf_conf c -> Forall (src_ok reg (c_own c)) (pending st) ->
+  wf_conf c -> Forall (src_ok reg (c_own c)) (pending st) -> qbound (c_packets c) (pending st) ->
   session_next c st = (Some tx, st') ->
   exists dropped used,
     pending st = dropped ++ used ++ pending st' /\
     abandon (c_own c) (s_last st) (pending st) = used ++ abandon (c_own c) (s_last st') (pending st') /\
     (s_last st' = 0 \/ s_last st' = s_last st) /\
     (pending st <> [] -> dropped ++ used <> []) /\
-    map untag_d (fst (recv_tx reg (c_own c) tx)) = flat_map (direct (c_own c)) used /\
+    map untag_d (fst (recv_tx reg (c_own c) tx)) = flat_map (direct (c_own c)) (flatten used) /\
     (snd (recv_tx reg (c_own c) tx) = 0 \/
      (snd (recv_tx reg (c_own c) tx) = E_COUNT /\ fst (recv_tx reg (c_own c) tx) = [] /\
       exists o, tx = TMulti o /\ c_in o = [])).
 Proof.
-  intros Hw Hall H.
-  destruct (session_next_spec _ reg _ _ _ Hw Hall H) as [dropped [used [H1 [H2 [H3 [H4 [H5 [H6 _]]]]]]]].
+  intros Hw Hall HQ H.
+  destruct (session_next_spec _ reg _ _ _ Hw Hall HQ H) as [dropped [used [H1 [H2 [H3 [H4 [H5 [H6 _]]]]]]]].
   exists dropped, used. repeat (split; [assumption|]).
   destruct Hw as [Hi _]. destruct (recv_tx_spec reg _ _ Hi H6) as [R1 R2]. split; [|exact R2].
-  rewrite R1, <- flat_map_direct'_nonnop, H5, flat_map_direct'_nonnop, flat_map_direct. reflexivity.
+  rewrite R1, <- flat_map_direct'_nonnop, H5, flat_map_direct'_nonnop. apply (sent_direct reg).
+  rewrite H1 in Hall. apply Forall_app in Hall. destruct Hall as [_ Hall]. apply Forall_app in Hall. apply Hall.
 Qed.
 
 Lemma app_length_lt {A} (a b c : list A) : a ++ b <> [] -> (length c < length (a ++ b ++ c))%nat.
